@@ -19,6 +19,15 @@ enum Cause {
     Abort(usize),
 }
 
+/// lets tasks that are suspended inside a pg operation (holding a guard into its tables) finish that operation
+async fn pg_quiet() {
+    let mut n = 0;
+    while !ractor::pg::verif_quiet() && n < 200 {
+        vsched::yield_now().await;
+        n += 1;
+    }
+}
+
 /// everything that must already be true when a wait returns Ok
 fn observe(a: &ActorRef<PMsg>, log: &Log, who: &str, graceful: bool) -> Vec<String> {
     let mut bad = Vec::new();
@@ -36,12 +45,18 @@ fn observe(a: &ActorRef<PMsg>, log: &Log, who: &str, graceful: bool) -> Vec<Stri
     if ractor::registry::verif_snapshot().iter().any(|(n, _)| n == "A") {
         bad.push(format!("{who} returned while the name was still registered"));
     }
-    let pg = ractor::pg::verif_snapshot();
-    if pg.groups.iter().any(|(_, _, m, l)| m.contains(&id) || l.contains(&id))
-        || pg.world_listeners.iter().any(|(_, _, l)| l.contains(&id))
-        || pg.relations.iter().any(|r| r.0 == id)
-    {
-        bad.push(format!("{who} returned while the actor was still known to pg: {pg:?}"));
+    // (the raw snapshot needs every guard into the pg tables released: a suspended task, e.g. the pg racer waiting
+    // for a lock, may hold one; callers let such tasks move on first, see `pg_quiet`)
+    if ractor::pg::verif_quiet() {
+        let pg = ractor::pg::verif_snapshot();
+        if pg.groups.iter().any(|(_, _, m, l)| m.contains(&id) || l.contains(&id))
+            || pg.world_listeners.iter().any(|(_, _, l)| l.contains(&id))
+            || pg.relations.iter().any(|r| r.0 == id)
+        {
+            bad.push(format!("{who} returned while the actor was still known to pg: {pg:?}"));
+        }
+    } else if ractor::pg::get_scoped_members(&"__default_scope__".to_string(), &"g1".to_string()).iter().any(|c| c.get_id() == id) {
+        bad.push(format!("{who} returned while the actor was still a member of g1"));
     }
     if !a.get_children().is_empty() {
         bad.push(format!("{who} returned while the actor still had children"));
@@ -65,6 +80,25 @@ fn body_x(cause: Cause, twin: bool) -> vsched::Body {
 /// `pg_racer`: while A exits, another task leaves and re-joins A's group on A's behalf and installs a monitor for
 /// it (the exit path walks the same tables; whatever the interleaving, the exit completes and the waits return)
 fn body_y(cause: Cause, twin: bool, pg_racer: bool) -> vsched::Body {
+    body_z(cause, twin, pg_racer, Mon::None)
+}
+
+/// monitors build: who monitors A when it exits
+#[derive(Clone, Copy, Debug, PartialEq, Eq)]
+enum Mon {
+    None,
+    /// a monitor that stopped (without un-monitoring) before A's exit began: its port refuses the event
+    Dead,
+    /// the same next to a live monitor, which must be told exactly once
+    DeadAndLive,
+    /// the monitor is stopped by another task while A exits
+    DyingMeanwhile,
+}
+
+fn body_z(cause: Cause, twin: bool, pg_racer: bool, mon: Mon) -> vsched::Body {
+    if mon != Mon::None && !ALT {
+        return wrong_build();
+    }
     Arc::new(move || {
         Box::pin(async move {
             let log = Log::default();
@@ -81,6 +115,32 @@ fn body_y(cause: Cause, twin: bool, pg_racer: bool) -> vsched::Body {
             ractor::pg::join("g1".into(), vec![a.get_cell()]);
             ractor::pg::monitor("g2".into(), a.get_cell());
             vsched::quiesce();
+            #[cfg(feature = "alt")]
+            let mut mon_actors: Vec<(ActorRef<PMsg>, ractor::concurrency::JoinHandle<()>)> = Vec::new();
+            #[cfg(feature = "alt")]
+            let mut dying = None;
+            #[cfg(feature = "alt")]
+            if mon != Mon::None {
+                let (d, dh) = Actor::spawn(None, Probe, args("D", Prog::default(), &log)).await.expect("D");
+                d.get_cell().monitor(a.get_cell());
+                if mon == Mon::DeadAndLive {
+                    // (two live ones around the dead one, whatever the table's iteration order)
+                    for n in ["V1", "V2"] {
+                        let (v, vh) = Actor::spawn(None, Probe, args(n, Prog::default(), &log)).await.expect("V");
+                        v.get_cell().monitor(a.get_cell());
+                        mon_actors.push((v, vh));
+                    }
+                }
+                if mon == Mon::DyingMeanwhile {
+                    dying = Some(vsched::spawn("racer", async move {
+                        d.stop(None);
+                        let _ = dh.await;
+                    }));
+                } else {
+                    d.stop(None);
+                    let _ = dh.await;
+                }
+            }
             let graceful = matches!(cause, Cause::Stop | Cause::Drain);
             let mk_marker = |s: &ActorRef<PMsg>, tag: u32| {
                 let _ = s.cast(do_msg(tag, vec![]));
@@ -90,6 +150,7 @@ fn body_y(cause: Cause, twin: bool, pg_racer: bool) -> vsched::Body {
             let w1 = vsched::spawn("waiter", async move {
                 let r = a1.wait(None).await;
                 mk_marker(&s1, 901);
+                pg_quiet().await;
                 let mut v = observe(&a1, &l1, "W1 wait(None)", graceful);
                 if r.is_err() {
                     v.push("W1 wait(None) returned a timeout".into());
@@ -140,6 +201,7 @@ fn body_y(cause: Cause, twin: bool, pg_racer: bool) -> vsched::Body {
                 if ok {
                     mk_marker(&s3, 902);
                     // (never hold a harness lock across a scheduling point)
+                    pg_quiet().await;
                     let v = observe(&a3, &l3, &format!("W2 {what}"), graceful);
                     b3.lock().unwrap().extend(v);
                 } else if !(twin && matches!(cause, Cause::Stop | Cause::Drain)) {
@@ -179,6 +241,7 @@ fn body_y(cause: Cause, twin: bool, pg_racer: bool) -> vsched::Body {
                 // made already: only an Ok promises anything)
                 let mut v = Vec::new();
                 if r.is_ok() {
+                    pg_quiet().await;
                     v = observe(&a5, &l5, if twin { "W2b (second closing wait)" } else { "W2b wait(None)" }, graceful);
                 } else if !twin {
                     v.push("W2b wait(None) returned a timeout".into());
@@ -191,6 +254,7 @@ fn body_y(cause: Cause, twin: bool, pg_racer: bool) -> vsched::Body {
             // join handle
             let joined = ah.await;
             mk_marker(&s, 903);
+            pg_quiet().await;
             let mut v = observe(&a, &log, "join handle", graceful);
             if joined.is_err() && !matches!(cause, Cause::Abort(_)) {
                 v.push("join handle returned an error".into());
@@ -200,6 +264,7 @@ fn body_y(cause: Cause, twin: bool, pg_racer: bool) -> vsched::Body {
             if r3.is_err() {
                 v.push("W3 wait(None) after the exit timed out".into());
             }
+            pg_quiet().await;
             v.extend(observe(&a, &log, "W3 wait(None) after exit", graceful));
             let r4 = a.stop_and_wait(None, Some(Duration::from_millis(10))).await;
             if matches!(r4, Err(ractor::RactorErr::Timeout)) {
@@ -250,6 +315,33 @@ fn body_y(cause: Cause, twin: bool, pg_racer: bool) -> vsched::Body {
                 .count();
             if leaves != 1 {
                 v.push(format!("the monitor of g1 saw {leaves} Leave events for A (cleanup must run exactly once)"));
+            }
+            #[cfg(feature = "alt")]
+            {
+                if let Some(d) = dying {
+                    let _ = d.await;
+                }
+                vsched::quiesce();
+                for (r, h) in mon_actors {
+                    r.stop(None);
+                    let _ = h.await;
+                }
+                if mon == Mon::DeadAndLive {
+                    for n in ["V1", "V2"] {
+                        let seen: Vec<String> = log
+                            .of(n)
+                            .iter()
+                            .filter(|e| e.kind == EvKind::Enter)
+                            .filter_map(|e| match &e.cb {
+                                Cb::Sup(x) if (x.starts_with("Terminated") || x.starts_with("Failed")) && x.contains(&format!("({aid},")) => Some(x.clone()),
+                                _ => None,
+                            })
+                            .collect();
+                        if seen.len() != 1 {
+                            v.push(format!("the live monitor {n} saw {} terminal events for A: {seen:?}", seen.len()));
+                        }
+                    }
+                }
             }
             bad.lock().unwrap().extend(v);
             for (r, h) in [(s, sh), (m, mh)] {
@@ -530,6 +622,15 @@ pub fn plan(tier: &str) -> Plan {
     }
     for cause in [Cause::Kill, Cause::Stop, Cause::Drain] {
         units.push(Unit::explore_split(Job::new(format!("exit/{cause:?}+twin-closer"), cfg.clone(), Some(bound), body_x(cause, true)), if thorough { 16 } else { 8 }));
+    }
+    // monitors build: A is monitored by an actor that is gone (or going) when A exits, next to live monitors
+    for mon in [Mon::Dead, Mon::DeadAndLive, Mon::DyingMeanwhile] {
+        for cause in [Cause::Stop, Cause::Kill, Cause::Drain, Cause::Panic] {
+            if !thorough && matches!(cause, Cause::Drain) {
+                continue;
+            }
+            units.push(alt_unit(format!("alt/exit/{cause:?}+monitor-{mon:?}"), cfg.clone(), Some(if thorough { 2 } else { 1 }), body_z(cause, false, false, mon), if thorough { 8 } else { 4 }));
+        }
     }
     for k in if thorough { vec![2usize, 3, 4, 5] } else { vec![3usize] } {
         let mut c = cfg.clone();
